@@ -45,7 +45,10 @@ def run(R):
               "keeping its bounds in [0.05,10]; its captures are >= 1 wherever the original's are - C15's regime has no upper limit "
               "on captures): gamut membership of all rows (asserted row by row where the original's captures lie in [1,100]) and, for "
               "under-determined systems, range_of_solutions ends (x 1/s, 1e-8 of the range) - both are geometry / linear algebra "
-              "without a solver tolerance; fits are not asserted there. "
+              "without a solver tolerance. The default gaussian and the Poisson fit (default solver) are also run on this third twin - every "
+              "target capture of the call is then large (all >= 1e3 for c >= 2^10; counted) - and compared with the original's with the same "
+              "scale-aware tolerances (2e-2 (1 + c) capture units; unique intensities x 1/s); a fit that reports non-convergence there "
+              "(RuntimeError) is counted, the high-accuracy settings are not used there. "
               "Non-trivial: lb > 0 or an active bound / out-of-gamut target.")
     HIGH = dict(solver="CLARABEL", tol_gap_abs=1e-10, tol_gap_rel=1e-10, tol_feas=1e-10, max_iter=500)
     stress = []
@@ -261,8 +264,10 @@ def run(R):
         # fits
         # the Poisson model (model='poisson', default solver) is unit equivariant too: its objective sum b log(p) - p, p = A x + baseline,
         # is multiplied by c (plus a constant) when b, A and baseline are; A >= 0 and all targets are >= 1 here
+        fits1 = {}
         for mode, kw in (("default", {}), ("high", HIGH), ("poisson", dict(model="poisson"))):
             (sa, oa) = call(lsq_linear, gA, B, lb=glb, ub=gub, baseline=gbase, return_pred=True, **kw)
+            fits1[mode] = (sa, oa)
             (sb, ob) = call(lsq_linear, gA2, B2, lb=glb2, ub=gub2, baseline=gbase2, return_pred=True, **kw)
             R.count("fit-pair:%s:%s" % (mode, "baseline-nonzero" if np.any(base != 0) else "baseline-zero"))
             if mode == "high" and "runtime" in (sa, sb):
@@ -299,6 +304,41 @@ def run(R):
                     amp = float(np.linalg.norm(np.linalg.pinv(A), 2)) * 2 * tolc / float(np.min(ub - lb))
                     if dX > 2 * tolx + amp:
                         R.failB(dict(c, mode=mode, original=oa[0], twin=ob[0]), "uniquely determined intensities do not scale by 1/s (s=%g): deviation %.4g of the range" % (s, dX), sig + ":fit-x:" + mode)
+        # fits in the VERY large capture units of the third twin (every target capture of the call is then in the hundreds to hundreds
+        # of thousands; for c >= 2^10 every one is >= 1e3): default gaussian and Poisson fits with the default solver. The same
+        # scale-aware tolerances as for the other pairs (2e-2 (1 + c) capture units, i.e. 2e-2 units of the original); a fit that
+        # REPORTS non-convergence in these units (RuntimeError) is loud and counted, a returned result must be equivariant.
+        if asserted and st1 == "ok":
+            for mode, kw in (("default", {}), ("poisson", dict(model="poisson"))):
+                sa, oa = fits1[mode]
+                if sa != "ok":
+                    continue
+                (s3t, o3) = call(lsq_linear, as_given(r4, A3, R, "A"), B * c3, lb=as_given(r4, lb3, R, "lb"), ub=as_given(r4, ub3, R, "ub"),
+                                 baseline=as_given(r4, base3, R, "baseline"), return_pred=True, **kw)
+                allbig = bool(np.all(B * c3 >= 1e3))
+                R.count("very-large-capture-units:fit-pair:%s:%s" % (mode, "all targets of the twin >= 1e3" if allbig else "some targets of the twin < 1e3"))
+                if s3t == "runtime":
+                    R.count("very-large-capture-units:fit-reported-non-convergence:" + mode); continue
+                if s3t != "ok":
+                    R.failB(dict(c, s3=s3, c3=c3, mode=mode, impl_error=o3), "fit raised in large capture units only (s=%g, c=%g): %s" % (s3, c3, o3), sig + ":fit:raises:large-units:" + mode)
+                    continue
+                tolc, tolx = 2e-2, 1e-2
+                dB3 = float(np.max(np.abs(o3[1] - c3 * oa[1])))
+                errA = np.linalg.norm(oa[1] - B, axis=1); err3 = np.linalg.norm(o3[1] - B * c3, axis=1)
+                dE3 = float(np.max(np.abs(err3 - c3 * errA)))
+                key_ = "very_large_capture_units_max_pred_deviation_over_1_plus_c:" + mode
+                R.notes[key_] = max(R.notes.get(key_, 0.0), dB3 / (1 + c3))
+                if __import__("os").environ.get("VERIF_DEBUG"):
+                    print("DEBUG", k, mode, "c3", c3, "s3", s3, "dB3/(1+c3)", dB3 / (1 + c3), "dE3/(1+c3)", dE3 / (1 + c3), "allbig", allbig, file=__import__("sys").stderr)
+                if dB3 > tolc * (1 + c3):
+                    R.failB(dict(c, s3=s3, c3=c3, mode=mode, original=oa[1], twin=o3[1]), "predicted captures do not scale by c=%g (max deviation %.4g > %.4g)" % (c3, dB3, tolc * (1 + c3)), sig + ":fit-pred:large-units:" + mode)
+                if dE3 > tolc * (1 + c3) * 2:
+                    R.failB(dict(c, s3=s3, c3=c3, mode=mode), "fit errors do not scale by c=%g (max deviation %.4g)" % (c3, dE3), sig + ":fit-error:large-units:" + mode)
+                if ns <= nf:   # unique intensities
+                    dX3 = float(np.max(np.abs(o3[0] * s3 - oa[0]) / (ub - lb)))
+                    amp = float(np.linalg.norm(np.linalg.pinv(A), 2)) * 2 * tolc / float(np.min(ub - lb))
+                    if dX3 > 2 * tolx + amp:
+                        R.failB(dict(c, s3=s3, c3=c3, mode=mode, original=oa[0], twin=o3[0]), "uniquely determined intensities do not scale by 1/s (s=%g, c=%g): deviation %.4g of the range" % (s3, c3, dX3), sig + ":fit-x:large-units:" + mode)
         # ranges (under-determined, in-gamut targets)
         if ns > nf:
             with warnings.catch_warnings():
